@@ -932,7 +932,7 @@ var volatileGhost = map[string]bool{"curAct": true}
 // only create new channels / contexts (entries of identities that existed at its entry are unchanged).
 func freshUnlessListed(g string) bool {
 	switch g {
-	case "ctxNoCancel", "ctxExpires", "ctxCancelled", "chClosed", "chCloser", "chExt", "chCap", "chLen":
+	case "ctxNoCancel", "ctxExpires", "ctxCancelled", "chClosed", "chCloser", "chExt", "chCap", "chLen", "chSeenClosed", "chErrSeen":
 		return true
 	}
 	return strings.HasPrefix(g, "chHas_")
